@@ -67,7 +67,7 @@ def prepare_scratch(files, tag):
 _RES_RX = re.compile(r'Checking harness ([\w:]+)\.\.\.')
 
 
-def run_kani(file_names, only=None, tag='k', timeout_harness=300, jobs=16, extra_args=(), keep=False,
+def run_kani(file_names, only=None, tag='k', timeout_harness=int(__import__('os').environ.get('KT','300')), jobs=16, extra_args=(), keep=False,
              overall_timeout=3000):
     """Run the harnesses of the given harness files.  Returns (results: {harness: {...}}, meta)."""
     files = [parse_harness_file(os.path.join(HARNESS_DIR, n)) for n in file_names]
@@ -156,7 +156,8 @@ def merge_json(results, js):
         checks = j.get('checks', [])
         covers = [c for c in checks if c.get('category') == 'cover']
         props = [c for c in checks if c.get('category') != 'cover']
-        failed = [c for c in props if c.get('status') not in ('Success', 'Unreachable')]
+        failed = [c for c in props if c.get('status') == 'Failure']
+        r['undetermined'] = len([c for c in props if c.get('status') == 'Undetermined'])
         r['checks'] = len(props)
         r['n_failed'] = len(failed)
         r['covers'] = [len([c for c in covers if c.get('status') == 'Satisfied']), len(covers)]
